@@ -171,6 +171,9 @@ func c07GenFunc(r *VRand, nUp int, resp bool, stats *VStats) c07Func {
 	kinds := 2
 	if resp {
 		kinds = 4
+	} else if r.Chance(0.004) {
+		kinds = 4 // ip()/upstream() in a request rule: the request builder must refuse the rule list
+		stats.Inc("func.response-only-function-in-request-rule")
 	}
 	nParams := 1
 	switch r.Intn(6) {
